@@ -384,6 +384,23 @@ static void eval_windows(std::initializer_list<Win> wins) {
 static void family_eval() {
   eval_windows<1>({WIN_WHOLE, WIN_G13, WIN_ONE, WIN_POINT, WIN_EMPTY});
   eval_windows<2>({WIN_WHOLE, WIN_G13, WIN_ONE});
+  // an object with a history: evaluated in its last interval, then assigned a spline of lower order
+  // on a shorter window, then evaluated (at the end of the new support / inside it)
+  for (const Pos &p : positions(4)) {
+    if (p.name != "at2" && p.name != "in01" && p.name != "at0") continue;
+    scenario("eval_reassigned_2_" + p.name, [&](Env &e) {
+      auto a = e.spl<2>("a0", 0, 4);
+      const T x1 = e.scalar("x1", between_shadow(2));
+      (void)a(x1);
+      const auto b = e.spl<1>("b", 0, 3);
+      a = b;
+      e.flush_pre();
+      e.arg("a", describe(a));
+      const T x = e.scalar("x", p.shadow);
+      e.begin();
+      return describe(a(x));
+    });
+  }
   for (const Win &w : {WIN_WHOLE, WIN_G13, WIN_ONE, WIN_POINT, WIN_EMPTY}) {
     scenario(std::string("eval_front_1_") + w.name, [&](Env &e) {
       const auto a = e.spl<1>("a", w.s, w.e);
